@@ -1191,6 +1191,24 @@ func hasAnchorAssertions(re *syntax.Regexp) bool {
 	return false
 }
 
+// containsOp returns true if any node of the AST has one of the given ops.
+func containsOp(re *syntax.Regexp, ops ...syntax.Op) bool {
+	if re == nil {
+		return false
+	}
+	for _, op := range ops {
+		if re.Op == op {
+			return true
+		}
+	}
+	for _, sub := range re.Sub {
+		if containsOp(sub, ops...) {
+			return true
+		}
+	}
+	return false
+}
+
 // hasMultilineLineAnchor returns true if the pattern has (?m)^ or (?m)$ —
 // multiline line anchors that DFA can't verify (needs NFA).
 // Single-line ^ (BeginText) and $ (EndText) are handled by DFA.
@@ -1389,7 +1407,7 @@ func SelectStrategy(n *nfa.NFA, re *syntax.Regexp, literals *literal.Seq, config
 	isEndAnchored := re != nil && nfa.IsPatternEndAnchored(re)
 	hasStartAnchor := re != nil && nfa.IsPatternStartAnchored(re)
 
-	if re != nil && config.EnableDFA && isEndAnchored && !isStartAnchored && !hasStartAnchor {
+	if re != nil && config.EnableDFA && isEndAnchored && !isStartAnchored && !hasStartAnchor && !hasWordBoundary(re) {
 		// Perfect candidate for reverse search
 		// Example: "pattern.*suffix$" on large haystack
 		// Forward: O(n*m) tries, Reverse: O(m) one try
@@ -1481,6 +1499,16 @@ func SelectStrategy(n *nfa.NFA, re *syntax.Regexp, literals *literal.Seq, config
 	// Delegated to helper function to reduce cyclomatic complexity.
 	if strategy := selectLiteralStrategy(literals, litAnalysis); strategy != 0 {
 		return strategy
+	}
+
+	// Word boundaries the byte-at-a-time lazy DFA cannot decide go to the NFA:
+	//   - \B must not hold inside a multi-byte UTF-8 sequence (stdlib only tests
+	//     rune boundaries); only PikeVM/backtracker check this (nfa.insideRune).
+	//   - \b/\B next to ^, $, \A, \z (`\b^x`, `x\b(?m:$)`): the DFA resolves the
+	//     two kinds of assertion in separate steps and loses the path.
+	if hasWordBoundary(re) && containsOp(re, syntax.OpNoWordBoundary,
+		syntax.OpBeginLine, syntax.OpEndLine, syntax.OpBeginText, syntax.OpEndText) {
+		return UseNFA
 	}
 
 	// Check for simple digit-lead patterns before general DFA routing.
